@@ -36,21 +36,30 @@ def run(run, h):
             run.check_monitor("generated_nonce_is_not_close_tag", n != CLOSE, dict(case, nonce=n))
             batch.add("r_nonce_new %s" % zlist(served),
                       lambda r, n=n, case=case: run.check_corr("corr.C18.nonce_new", r == [1, n], dict(case, model=r, impl=n)))
-            # through the customer API
-            cid = rng.randbytes(32)
-            full = [CLOSE] * k + [rand_nz(rng) for _ in range(14)]
-            e = establish_request(h, M, cid, 7, 9, b"x", full)
-            run.check_monitor("generated_nonce_is_not_close_tag", e["req"]["state"]["nonce"] != CLOSE and
-                              e["req"]["state"]["nonce"] == full[k], dict(case, via="Requested::new"))
+            # through the customer API: the close tag served k times in a row starting at draw index i, for the first
+            # draw indices (whichever of them the code uses for the nonce - no assumption on the order of its draws)
+            for i in ((0, 1, 2) if run.tier == "quick" else range(6)):
+                cid = rng.randbytes(32)
+                full = [rand_nz(rng) for _ in range(i)] + [CLOSE] * k + [rand_nz(rng) for _ in range(16)]
+                e = establish_request(h, M, cid, 7, 9, b"x", full)
+                nn = e["req"]["state"]["nonce"]
+                run.check_monitor("generated_nonce_is_not_close_tag", nn != CLOSE and nn in e["served"],
+                                  dict(case, via="Requested::new", window_at=i, nonce=nn))
+                run.check_monitor("generated_state_passes_decode_validation",
+                                  h.call("decode", "Requested", e["req_hex"]) == ["ok", e["req_hex"]], dict(case, via="Requested::new", window_at=i))
     est = full_establish(h, M, rng, rng.randbytes(32), 50, 60, b"c18")
     run.check_monitor("honest_establish_accepted", est["ok"], {})
     ready = est["ready"]
     for k in (1, 2):
-        h.rng(3, [CLOSE] * k + [rand_nz(rng) for _ in range(95)])
-        t = h.call("ready_start", ready, 1, "-", M.cconfig)
-        stt = parse_started(t[1])
-        run.case({"op": "start", "close_prefix": k})
-        run.check_monitor("generated_nonce_is_not_close_tag", stt["new"]["nonce"] != CLOSE and unsc(t[2]) != CLOSE, {"via": "Ready::start", "k": k})
+        for i in (0, 1, 2):
+            h.rng(3, [rand_nz(rng) for _ in range(i)] + [CLOSE] * k + [rand_nz(rng) for _ in range(97)])
+            t = h.call("ready_start", ready, 1, "-", M.cconfig)
+            stt = parse_started(t[1])
+            run.case({"op": "start", "close_window": [i, k]})
+            run.check_monitor("generated_nonce_is_not_close_tag", stt["new"]["nonce"] != CLOSE and unsc(t[2]) != CLOSE,
+                              {"via": "Ready::start", "k": k, "window_at": i})
+            run.check_monitor("generated_state_passes_decode_validation", h.call("decode", "Started", t[1]) == ["ok", t[1]],
+                              {"via": "Ready::start", "k": k, "window_at": i})
     # ---- nonce decoding
     for x in EDGE + [CLOSE, CLOSE + 1, CLOSE - 1, Q, Q + 1, 2 ** 256 - 1, rand_nz(rng)]:
         raw = x.to_bytes(32, "little").hex()
